@@ -8,9 +8,8 @@ Model/Encode.lean (`encode`), Model/Tokens.lean (`tokens`, decoder normal form).
 
 What is kernel-checked here
 * T2a `lex_serialize`        lexing the bytes of any encoding gives its structural token list
-* T2b `lex_canonical_*`      the lexer that exists is NOT canonical (`NUMEQUAL VERIFY` lexes like
-                             `NUMEQUALVERIFY`): negation of the full statement on a 3-byte
-                             witness; the strongest true statements are proved instead
+* T2b `lex_canonical`        whatever the lexer accepts is the canonical serialisation of its
+                             tokens (full strength, since lex.rs fix 042abd7f)
 * T3  `decode_encode`        the decoder returns `ms` on `tokens ms` for every `ms` in decoder
                              normal form whose nodes `from_ast` accepts; the naive statement
                              (every accepted `ms`) is false — `and_v(X,and_v(Y,Z))` comes back
@@ -92,11 +91,6 @@ example : decodeScript Toy.dec Toy.env .tap [0x92, 0x92, 0x68] ≠ .error .panic
 have the byte lengths of real keys / hashes and whose numbers are below 2^31 -/
 theorem lex_serialize (env : KeyEnv) (ctx : Ctx) (ms : Ms) (h : AtomsOk env ms) :
     lex (serialize (encode env ctx ms)) = .ok (tokens env ctx ms) :=
-  lexG_encode env ctx false ms h
-
-/-- the same holds for the repaired lexer (it rejects nothing the encoder produces) -/
-theorem lexStrict_serialize (env : KeyEnv) (ctx : Ctx) (ms : Ms) (h : AtomsOk env ms) :
-    lexG true (serialize (encode env ctx ms)) = .ok (tokens env ctx ms) :=
   lexG_encode env ctx true ms h
 
 example : AtomsOk Toy.env Toy.m1 := by
@@ -107,56 +101,26 @@ example : lex (serialize (encode Toy.env .segwitv0 Toy.m1)) = .ok (tokens Toy.en
 
 /-! ### T2b: canonicity of the lexer -/
 
-/-- the full statement: whatever the lexer accepts is the canonical serialisation of its tokens -/
-def lex_canonical_full : Prop := ∀ (bs : Bytes) (ts : List Token), lex bs = .ok ts → tokBytes ts = bs
-
-/-- FALSE for the code that exists: `OP_1 OP_NUMEQUAL OP_VERIFY` and `OP_1 OP_NUMEQUALVERIFY`
-lex to the same tokens (lex.rs checks `Equal`, `CheckSig`, `CheckMultiSig` before `OP_VERIFY`,
-not `NumEqual`) -/
-theorem lex_noncanonical_witness :
-    lex [0x51, 0x9c, 0x69] = .ok [.num 1, .numEqual, .verify] ∧
-    lex [0x51, 0x9d] = .ok [.num 1, .numEqual, .verify] := ⟨rfl, rfl⟩
-
-theorem lex_canonical_full_false : ¬ lex_canonical_full := by
-  intro h
-  have := h [0x51, 0x9c, 0x69] _ lex_noncanonical_witness.1
-  revert this
-  decide
-
-/-- the repaired lexer (`strict`) rejects that byte string -/
-theorem lexStrict_rejects_witness : lexG true [0x51, 0x9c, 0x69] = .error .nonMinimalVerify := rfl
-
-/-- T2b for the repaired lexer: it accepts only the canonical serialisation of its tokens
-(direct minimal pushes, minimal numbers, `OP_n` for 0..16, fused `*VERIFY`) -/
-theorem lexStrict_canonical (bs : Bytes) (ts : List Token) (h : lexG true bs = .ok ts) :
-    tokBytes ts = bs :=
+/-- whatever the lexer accepts is the canonical serialisation of its tokens: direct minimal
+pushes, minimal script numbers, `OP_n` for 0..16, fused `*VERIFY` opcodes -/
+theorem lex_canonical (bs : Bytes) (ts : List Token) (h : lex bs = .ok ts) : tokBytes ts = bs :=
   LexL.lexStrict_canonical bs ts h
 
-/-- the repaired lexer accepts nothing the real one rejects, with the same tokens -/
-theorem lexStrict_sub (bs : Bytes) (ts : List Token) (h : lexG true bs = .ok ts) : lex bs = .ok ts :=
-  lexB_strict' bs.length bs none ts (Nat.le_refl _) h
+/-- hence the lexer is injective: no two byte strings have the same tokens -/
+theorem lex_injective (bs₁ bs₂ : Bytes) (ts : List Token)
+    (h1 : lex bs₁ = .ok ts) (h2 : lex bs₂ = .ok ts) : bs₁ = bs₂ :=
+  (lex_canonical bs₁ ts h1).symm.trans (lex_canonical bs₂ ts h2)
 
-/-- T2b, the strongest true statement about the lexer that exists: an accepted byte string is
-the canonical serialisation of its tokens UNLESS the repaired lexer rejects it as a non-minimal
-`VERIFY` — i.e. the `NUMEQUAL VERIFY` pair is the only non-canonical form that gets through -/
-theorem lex_canonical_partial (bs : Bytes) (ts : List Token) (h : lex bs = .ok ts) :
-    tokBytes ts = bs ∨ lexG true bs = .error .nonMinimalVerify := by
-  rcases lexB_strict bs.length bs none ts (Nat.le_refl _) h with h1 | h1
-  · exact .inl (LexL.lexStrict_canonical bs ts h1)
-  · exact .inr h1
-
-/-- two different byte strings with the same tokens: one of them contains a split `VERIFY` -/
-theorem lex_injective_partial (bs₁ bs₂ : Bytes) (ts : List Token)
-    (h1 : lex bs₁ = .ok ts) (h2 : lex bs₂ = .ok ts) :
-    bs₁ = bs₂ ∨ lexG true bs₁ = .error .nonMinimalVerify ∨ lexG true bs₂ = .error .nonMinimalVerify := by
-  rcases lex_canonical_partial bs₁ ts h1 with e1 | e1
-  · rcases lex_canonical_partial bs₂ ts h2 with e2 | e2
-    · exact .inl (e1.symm.trans e2)
-    · exact .inr (.inr e2)
-  · exact .inr (.inl e1)
+/-- regression (fixed in 042abd7f): `OP_1 OP_NUMEQUAL OP_VERIFY` is rejected -/
+theorem lex_rejects_split_numequalverify : lex [0x51, 0x9c, 0x69] = .error .nonMinimalVerify := rfl
 
 example : tokBytes [.num 1, .numEqual, .verify] = [0x51, 0x9d] :=
-  lexStrict_canonical [0x51, 0x9d] _ rfl
+  lex_canonical [0x51, 0x9d] _ rfl
+
+/-- an encoding is the ONLY byte string with its tokens -/
+theorem encode_unique_bytes (env : KeyEnv) (ctx : Ctx) (ms : Ms) (h : AtomsOk env ms) (bs : Bytes)
+    (hb : lex bs = .ok (tokens env ctx ms)) : bs = serialize (encode env ctx ms) :=
+  lex_injective _ _ _ hb (lex_serialize env ctx ms h)
 
 /-! ### T3: decoding an encoding -/
 
